@@ -44,11 +44,15 @@ Record srv := {
   ixes : alist;               (* .ixes  : ca -> incomer (ready) *)
   cxes : alist;               (* .cxes  : ca -> incomer (TLS: accepted, handshake pending) *)
   detached : list nat;        (* ghost: removed with removeIx(ca, shutclose=False) *)
-  errors : nat                (* ghost: number of calls that raised ValueError *)
+  errors : nat;               (* ghost: number of calls that raised ValueError *)
+  hfails : nat;               (* ghost: number of TLS handshakes that failed (do_handshake raised SSLError/OSError) *)
+  wedged : nat;               (* ghost: service calls that died on a dead pending entry (AttributeError:
+                                 .cs is None) *)
+  hraised : nat               (* ghost: service calls out of which a handshake error propagated *)
 }.
 
 Definition init : srv :=
-  {| next := 0; sk := fun _ => Closed; ixes := []; cxes := []; detached := []; errors := 0 |}.
+  {| next := 0; sk := fun _ => Closed; ixes := []; cxes := []; detached := []; errors := 0; hfails := 0; wedged := 0; hraised := 0 |}.
 
 Definition upd (f : nat -> sock) (i : nat) (g : sock -> sock) : nat -> sock :=
   fun j => if Nat.eqb j i then g (f j) else f j.
@@ -59,9 +63,9 @@ Definition shut1 (s : sock) : sock := match s with Open => Shut | x => x end.
 Definition close1 (s : sock) : sock := Closed.
 
 Definition with_sk (s : srv) (f : nat -> sock) : srv :=
-  {| next := next s; sk := f; ixes := ixes s; cxes := cxes s; detached := detached s; errors := errors s |}.
+  {| next := next s; sk := f; ixes := ixes s; cxes := cxes s; detached := detached s; errors := errors s; hfails := hfails s; wedged := wedged s; hraised := hraised s |}.
 Definition err (s : srv) : srv :=
-  {| next := next s; sk := sk s; ixes := ixes s; cxes := cxes s; detached := detached s; errors := S (errors s) |}.
+  {| next := next s; sk := sk s; ixes := ixes s; cxes := cxes s; detached := detached s; errors := S (errors s); hfails := hfails s; wedged := wedged s; hraised := hraised s |}.
 
 Definition shut_opt (o : option nat) (f : nat -> sock) : nat -> sock :=
   match o with Some i => upd f i shut1 | None => f end.
@@ -73,14 +77,14 @@ Definition accept_plain (s : srv) (ca : Z) : srv :=
   let n := next s in
   {| next := S n;
      sk := upd (shut_opt (lookup ca (ixes s)) (sk s)) n (fun _ => Open);
-     ixes := aset ca n (ixes s); cxes := cxes s; detached := detached s; errors := errors s |}.
+     ixes := aset ca n (ixes s); cxes := cxes s; detached := detached s; errors := errors s; hfails := hfails s; wedged := wedged s; hraised := hraised s |}.
 
 (* ServerTls.serviceAxes, one accepted (cs, ca): same on .cxes *)
 Definition accept_tls (s : srv) (ca : Z) : srv :=
   let n := next s in
   {| next := S n;
      sk := upd (shut_opt (lookup ca (cxes s)) (sk s)) n (fun _ => Open);
-     ixes := ixes s; cxes := aset ca n (cxes s); detached := detached s; errors := errors s |}.
+     ixes := ixes s; cxes := aset ca n (cxes s); detached := detached s; errors := errors s; hfails := hfails s; wedged := wedged s; hraised := hraised s |}.
 
 (* ServerTls.serviceCxes, one (ca, cx) of the snapshot whose handshake completed:
      if ca in self.ixes and self.ixes[ca] is not cx: self.shutdownIx(ca)
@@ -91,32 +95,67 @@ Definition promote (s : srv) (ca : Z) (cx : nat) : srv :=
                      | Some old => if Nat.eqb old cx then None else Some old
                      | None => None end) (sk s);
      ixes := aset ca cx (ixes s); cxes := aremove ca (cxes s);
-     detached := detached s; errors := errors s |}.
+     detached := detached s; errors := errors s; hfails := hfails s; wedged := wedged s; hraised := hraised s |}.
 
-(* the loop over the snapshot self.cxes.items(); hs = handshake outcome per pending connection,
-   in table order (true = completed, false / exhausted = try again later) *)
-Fixpoint service_cxes (snap : alist) (hs : list bool) (s : srv) : srv :=
+(* outcome of one do_handshake() call *)
+Inductive hres := HDone | HWant | HFail.
+
+(* what ServerTls.serviceCxes does when cx.serviceHandshake() raises SSLError / OSError (extracted
+   from the source on every run):
+     NoCleanup      the call is not inside a try: the error propagates, the dead entry stays in .cxes
+     CleanRaise     except: del self.cxes[ca]; raise           (commit 982b860)
+     CleanContinue  except (ssl.SSLError, OSError): del self.cxes[ca]; continue   (current) *)
+Inductive mode := NoCleanup | CleanRaise | CleanContinue.
+Definition cleaning (m : mode) : bool := match m with NoCleanup => false | _ => true end.
+
+(* IncomerTls.handshake() failed: it shutcloses its socket and re-raises (C25: RaiseClose).
+   drop = the entry is deleted from .cxes ; propagate = the error leaves serviceConnects *)
+Definition handshake_failed (drop propagate : bool) (s : srv) (ca : Z) (cx : nat) : srv :=
+  {| next := next s; sk := upd (sk s) cx close1; ixes := ixes s;
+     cxes := if drop then aremove ca (cxes s) else cxes s;
+     detached := detached s; errors := errors s; hfails := S (hfails s); wedged := wedged s;
+     hraised := if propagate then S (hraised s) else hraised s |}.
+
+Definition wedge (s : srv) : srv :=
+  {| next := next s; sk := sk s; ixes := ixes s; cxes := cxes s; detached := detached s;
+     errors := errors s; hfails := hfails s; wedged := S (wedged s); hraised := hraised s |}.
+
+(* the loop over the snapshot self.cxes.items(); hs = outcome of each do_handshake() call in call
+   order (exhausted = want more).  A pending entry whose socket is already closed (.cs is None)
+   raises AttributeError before any handshake call (not an SSLError/OSError: it propagates in every
+   mode); a propagating exception aborts the loop. *)
+Fixpoint service_cxes (m : mode) (snap : alist) (hs : list hres) (s : srv) : srv :=
   match snap with
   | [] => s
   | (ca, cx) :: snap' =>
-      match hs with
-      | true :: hs' => service_cxes snap' hs' (promote s ca cx)
-      | false :: hs' => service_cxes snap' hs' s
-      | [] => s
+      match sk s cx with
+      | Closed => wedge s
+      | _ =>
+          match hs with
+          | HDone :: hs' => service_cxes m snap' hs' (promote s ca cx)
+          | HWant :: hs' => service_cxes m snap' hs' s
+          | HFail :: hs' =>
+              match m with
+              | NoCleanup => handshake_failed false true s ca cx
+              | CleanRaise => handshake_failed true true s ca cx
+              | CleanContinue => service_cxes m snap' hs' (handshake_failed true false s ca cx)
+              end
+          | [] => service_cxes m snap' [] s
+          end
       end
   end.
 
 Inductive op :=
-| ServiceConnects (cas : list Z) (hs : list bool)  (* peers accepted by this call; TLS handshake outcomes *)
+| ServiceConnects (cas : list Z) (hs : list hres)  (* peers accepted by this call; TLS handshake outcomes *)
 | ShutdownIx (ca : Z)
 | CloseIx (ca : Z)
 | CloseAllIx
 | RemoveIx (ca : Z) (shutclose : bool).
 
-Definition step (tls : bool) (s : srv) (o : op) : srv :=
+Definition step (tls : bool) (cleans : mode) (s : srv) (o : op) : srv :=
   match o with
   | ServiceConnects cas hs =>
-      if tls then let s1 := fold_left accept_tls cas s in service_cxes (cxes s1) hs s1
+      if tls then let s1 := fold_left accept_tls cas s in service_cxes cleans (cxes s1) hs s1
       else fold_left accept_plain cas s
   | ShutdownIx ca =>
       match lookup ca (ixes s) with
@@ -137,11 +176,11 @@ Definition step (tls : bool) (s : srv) (o : op) : srv :=
              sk := if shutclose then upd (sk s) i close1 else sk s;
              ixes := aremove ca (ixes s); cxes := cxes s;
              detached := if shutclose then detached s else i :: detached s;
-             errors := errors s |}
+             errors := errors s; hfails := hfails s; wedged := wedged s; hraised := hraised s |}
       end
   end.
 
-Definition run (tls : bool) (ops : list op) : srv := fold_left (step tls) ops init.
+Definition run (tls : bool) (cleans : mode) (ops : list op) : srv := fold_left (step tls cleans) ops init.
 
 (* ------------------------------------------------------------------ specification predicates *)
 Definition keys (l : alist) : list Z := map fst l.
@@ -156,6 +195,14 @@ Record table_ok (s : srv) : Prop := {
   ok_ids_bounded : forall i, In i (referenced s) -> i < next s;
   ok_no_orphan_open : forall i, i < next s -> sk s i = Open -> In i (referenced s)
 }.
+
+(* one table slot per incomer *)
+Definition ids_distinct (s : srv) : Prop := NoDup (ids (ixes s) ++ ids (cxes s)).
+
+(* every connection still waiting for its TLS handshake is alive: the pending table holds no entry
+   whose socket the server has closed *)
+Definition pending_live (s : srv) : Prop :=
+  forall ca cx, lookup ca (cxes s) = Some cx -> sk s cx = Open.
 
 (* observation used by the correspondence: socket states of all incomers created so far *)
 Definition sock_states (s : srv) : list sock := map (sk s) (seq 0 (next s)).
